@@ -216,12 +216,20 @@ Ranked(ord, ext, off, cnt) ==
 
 SelectExt(q, rows) == LET ext == ExtRows(q, rows) IN IF q.distinct THEN DedupBy(ext, LAMBDA x : x.out) ELSE ext
 
-\* UNION: q = [kind |-> "union", all, l, r, order, off, cnt]; ORDER BY refers to result columns of l
+\* UNION chain: q = [kind |-> "union", br, alls, order, off, cnt]; br = the SELECT branches (two or three),
+\* alls[i] = the connector in front of branch i+1 is UNION ALL (FALSE: UNION [DISTINCT]).  MySQL evaluates the
+\* chain from the left: a DISTINCT union de-duplicates everything that stands to its left together with its own
+\* branch; a later UNION ALL appends its rows, duplicates included.  ORDER BY names result columns of br[1].
+RECURSIVE UnionOuts(_, _, _)
+UnionOuts(q, rows, n) ==
+    LET ext == SelectExt(q.br[n], rows)
+        mine == [i \in DOMAIN ext |-> ext[i].out]
+    IN IF n = 1 THEN mine
+       ELSE LET sofar == UnionOuts(q, rows, n - 1) \o mine
+            IN IF q.alls[n - 1] THEN sofar ELSE Dedup(sofar)
 UnionExt(q, rows) ==
-    LET both == SelectExt(q.l, rows) \o SelectExt(q.r, rows)
-        outs == [i \in DOMAIN both |-> both[i].out]
-        u == IF q.all THEN outs ELSE Dedup(outs)
-    IN [k \in DOMAIN u |-> [out |-> u[k], key |-> [i \in DOMAIN q.order |-> u[k][SelPos(q.l.sel, q.order[i].e)]]]]
+    LET u == UnionOuts(q, rows, Len(q.br))
+    IN [k \in DOMAIN u |-> [out |-> u[k], key |-> [i \in DOMAIN q.order |-> u[k][SelPos(q.br[1].sel, q.order[i].e)]]]]
 
 Answer(q, rows) ==
     IF q.kind = "union" THEN Ranked(q.order, UnionExt(q, rows), q.off, q.cnt)
@@ -416,14 +424,18 @@ Select(dist, sel, wh, gb, ord, lim) ==
     [kind |-> "select", distinct |-> dist, sel |-> sel, where |-> wh, group |-> gb, order |-> ord,
      off |-> lim[1], cnt |-> lim[2]]
 
-MkQuery(fm, vt, i1, i2, i3, i4, i5, i6) ==
+\* connectors of a union chain: every DISTINCT / ALL combination of two- and three-branch chains
+UnionAlls == << <<FALSE>>, <<TRUE>>, <<FALSE, FALSE>>, <<FALSE, TRUE>>, <<TRUE, FALSE>>, <<TRUE, TRUE>> >>
+
+MkQuery(fm, vt, i1, i2, i3, i4, i5, i6, i7) ==
     CASE fm = "plain" -> Select(i2 = 2, SelPlain[i1], Wheres(vt)[i3], <<>>, Orders(SelPlain[i1])[i4], Limits[i5])
       [] fm = "agg"   -> Select(FALSE, SelAgg[i1], Wheres(vt)[i3], <<>>, <<>>, Limits[i5])
       [] fm = "group" -> LET sel == GroupPrefix(GroupBys[i1], i2) \o SelAgg[i6]
                          IN Select(FALSE, sel, Wheres(vt)[i3], GroupBys[i1], Orders(sel)[i4], Limits[i5])
-      [] fm = "union" -> [kind |-> "union", all |-> (i2 = 2),
-                          l |-> Select(FALSE, SelPlain[i1], Wheres(vt)[i3], <<>>, <<>>, <<0, -1>>),
-                          r |-> Select(FALSE, SelPlain[i1], Wheres(vt)[i6], <<>>, <<>>, <<0, -1>>),
+      [] fm = "union" -> [kind |-> "union", alls |-> UnionAlls[i2],
+                          br |-> LET ws == <<i3, i6, i7>>
+                                 IN [n \in 1..(Len(UnionAlls[i2]) + 1) |->
+                                        Select(FALSE, SelPlain[i1], Wheres(vt)[ws[n]], <<>>, <<>>, <<0, -1>>)],
                           order |-> Orders(SelPlain[i1])[i4], off |-> Limits[i5][1], cnt |-> Limits[i5][2]]
       [] fm = "update" -> [kind |-> "update", set |-> Sets(vt)[i1], where |-> Wheres(vt)[i3], ins |-> <<>>]
       [] fm = "delete" -> [kind |-> "delete", set |-> <<>>, where |-> Wheres(vt)[i3], ins |-> <<>>]
@@ -437,7 +449,7 @@ Dim(fm) ==
     CASE fm = "plain" -> <<Len(SelPlain), 2, 1, 12, NLimit, 1>>
       [] fm = "agg"   -> <<NSelAgg - 1, 1, 1, 1, 4, 1>>
       [] fm = "group" -> <<Len(GroupBys), 4, 1, NOrder, NLimit, NSelAgg>>
-      [] fm = "union" -> <<Len(SelPlain), 2, 1, 4, 5, 1>>
+      [] fm = "union" -> <<Len(SelPlain), Len(UnionAlls), 1, 4, 5, 1>>
       [] fm = "update" -> <<NSet, 1, NWhere, 1, 1, 1>>
       [] fm = "delete" -> <<1, 1, NWhere, 1, 1, 1>>
       [] fm = "insdup" -> <<NSet, 1, 12, 1, 1, 1>>
@@ -456,8 +468,8 @@ SelectOK(vt, q) ==
     /\ q.distinct => \A i \in DOMAIN q.order : SelPos(q.sel, q.order[i].e) # 0
 WellFormed(vt, q) ==
     CASE q.kind = "select" -> SelectOK(vt, q)
-      [] q.kind = "union" -> /\ SelectOK(vt, q.l) /\ SelectOK(vt, q.r)
-                             /\ \A i \in DOMAIN q.order : SelPos(q.l.sel, q.order[i].e) # 0
+      [] q.kind = "union" -> /\ \A n \in DOMAIN q.br : SelectOK(vt, q.br[n])
+                             /\ \A i \in DOMAIN q.order : SelPos(q.br[1].sel, q.order[i].e) # 0
                              /\ \A i, j \in DOMAIN q.order : i # j => q.order[i].e # q.order[j].e
       [] OTHER -> TRUE
 
@@ -530,9 +542,12 @@ CaseOf(fm, i1, i2, i3, i4, i5, i6, r) ==
         di == (Mix(fm, i1, i2, i3, i4, i5, i6, Seed + (13 * r) + 1) % NData) + 1
         w1 == IF IsSelectFam(fm) THEN (Mix(fm, i1, i2, i3, i4, i5, i6, Seed + (31 * r) + 11) % NWhere) + 1 ELSE i3
         w2 == IF fm = "union" THEN (Mix(fm, i1, i2, i3, i4, i5, i6, Seed + (37 * r) + 5) % NWhere) + 1 ELSE i6
-    IN [fam |-> fm, ix |-> <<i1, i2, w1, i4, i5, w2, r, di, ci>>, cfg |-> cfg, rows |-> Data(cfg.vt, di),
+        \* third branch of a union chain: every other repetition repeats the first branch's condition, so that the
+        \* last branch contributes rows the chain already has
+        w3 == IF r % 2 = 0 THEN w1 ELSE (Mix(fm, i1, i2, i3, i4, i5, i6, Seed + (41 * r) + 17) % NWhere) + 1
+    IN [fam |-> fm, ix |-> <<i1, i2, w1, i4, i5, w2, r, di, ci, w3>>, cfg |-> cfg, rows |-> Data(cfg.vt, di),
         sp |-> Mix(fm, i1, i2, i3, i4, i5, i6, Seed + (977 * r) + 3) % NSpell,
-        q |-> MkQuery(fm, cfg.vt, i1, i2, w1, i4, i5, w2)]
+        q |-> MkQuery(fm, cfg.vt, i1, i2, w1, i4, i5, w2, w3)]
 
 VARIABLES ph
 allvars == <<fam, a, b, c, d, e, f, rep, ph>>
@@ -571,7 +586,7 @@ SelectProps(cs, A) ==
        /\ (q.cnt >= 0 => Len(A.win) <= q.cnt)                          \* LimitBound
        /\ Len(A.win) <= Len(A.pool)
        /\ (q.cnt < 0 /\ q.off = 0 => Len(A.win) = Len(A.pool))
-       /\ ((cs.fam = "plain" /\ q.distinct) \/ (cs.fam = "union" /\ ~q.all)
+       /\ ((cs.fam = "plain" /\ q.distinct) \/ (cs.fam = "union" /\ ~q.alls[Len(q.alls)])
               => \A x \in Range(A.pool) : Count(x, A.pool) = 1)          \* DistinctNoDup
        /\ (cs.fam = "agg" => Len(A.pool) = 1)                          \* AggregateOneRow
        \* FilterDecomposes: a pure filter query is answered table by table
